@@ -103,6 +103,7 @@ type Workload struct {
 	MaxSteps  int
 	ClockJump int
 	Faulty    bool // fault-injecting family (reported separately in evidence)
+	CheckGID  bool // verify goroutine identity at every simrt entry (workloads whose library code sets finalizers)
 }
 
 var registry []*Workload
@@ -190,7 +191,7 @@ func RunOne(t *testing.T, wl *Workload, seed uint64, replay []int32, trace bool)
 	}
 	busy.Store(true)
 	defer busy.Store(false)
-	func() {
+	body := func(t *testing.T) {
 		defer func() {
 			if r := recover(); r != nil {
 				msg := fmt.Sprint(r)
@@ -202,7 +203,7 @@ func RunOne(t *testing.T, wl *Workload, seed uint64, replay []int32, trace bool)
 		synctest.Test(t, func(t *testing.T) {
 			cfg := simrt.Config{
 				Tape: tape, MaxSteps: wl.MaxSteps, Strategy: strategyOf(si), Trace: trace,
-				CheckGID: checkGID, ClockJump: wl.ClockJump, Wait: synctest.Wait,
+				CheckGID: checkGID || wl.CheckGID, ClockJump: wl.ClockJump, Wait: synctest.Wait,
 			}
 			sim := simrt.New(cfg)
 			res := sim.Run(func() {
@@ -211,7 +212,15 @@ func RunOne(t *testing.T, wl *Workload, seed uint64, replay []int32, trace bool)
 			})
 			w.Res = res
 		})
-	}()
+	}
+	if raceBuild() {
+		// a detected race makes the bubble's inner test fail, and
+		// synctest.Test then calls FailNow on its T: give it a T of its own
+		// so that only the subtest goroutine exits.
+		t.Run("run", body)
+	} else {
+		body(t)
+	}
 	res := w.Res
 	if res == nil {
 		if out.HarnessErr == "" {
@@ -236,6 +245,7 @@ func RunOne(t *testing.T, wl *Workload, seed uint64, replay []int32, trace bool)
 	if w.After != nil {
 		w.After(res)
 	}
+	collectRaces(w)
 	for _, ti := range res.Tasks {
 		if ti.Panic != "" && !ti.Lib && !claimed(out, ti) {
 			// harness tasks run library code, so the panic may well be the library's:
